@@ -142,7 +142,8 @@ MANIFEST_META = {
         note='file model trusted; v1 index/data functions are under contract (C05) but the v1 invariant is not stated as one '
              'predicate; size() accounting is outside; the swap step (old files removed, temporary bundle renamed into the old '
              'name, only when tiles were copied), the identification of old/new bundle and the glob pattern are under contract; '
-             'the defrag loop invariant is per-row (rows < y copied)'),
+             'the defrag loop invariant is per-row (rows < y copied); S44: the scratch bundle was '
+             'assumed empty - leftovers of an interrupted run were merged into the rewritten bundle; repaired, now an obligation'),
     'C12': dict(
         text='Proof on the real cleanup code (every iteration of the walks, all inputs): cleanup_directory hands a file to the '
              'remove handler iff remove_all or lstat(path).st_mtime < before_timestamp (strict, the file\'s own mtime, links not '
@@ -182,7 +183,8 @@ MANIFEST_META = {
              're-raises a failure only in raise mode after a forced shutdown; shutdown queues one stop sentinel per worker.',
         note='queue and thread timing are assumed (FIFO queue stubs, no scheduling explored); termination/liveness of the '
              'empty() polling and imap/map (star-args) are not under contract (map_each pooled branch, starmap, _single_call, '
-             '_result_iter, _fetch_results, shutdown are); defects S13, S14 (size-1 pool swallowed exceptions) found and repaired'),
+             '_result_iter, _fetch_results, shutdown are); defects S13, S14 (size-1 pool swallowed exceptions) found and repaired; S42 (a re-used pool '
+             'handed late results of an aborted call to the next call) and S43 (module-level starmap/starcall sized by len(args[0])) repaired, both under contract'),
     'C10': dict(
         text='Proof of the authorization decision logic and call-site conditions on the real code: tile services '
              '(TMS/WMTS/KML authorize_tile_layer) return normally only without a callback, for \'full\', or for '
@@ -292,7 +294,8 @@ MANIFEST_META = {
         note='floats as reals; PIL crop/paste pixel semantics and the upstream being position-determined are outside; '
              'TileSplitter.get_tile, split_meta_tiles, minimal_meta_tile, bulk creation and TileManager._load_tile_coords (every missing tile '
              'goes to the creator, created tiles are delivered, rescaled stand-ins only when nothing was created) are under contract; '
-             'opaque-callee assumption for trace conditions (an opaque callee does not itself perform the guarded event)'),
+             'opaque-callee assumption for trace conditions (an opaque callee does not itself perform the guarded event); S45 (bulk mode lost to '
+             'minimize_meta_requests) and S46 (meta tiles de-duplicated by bbox) found by the second hunt, clauses re-written from the property, repaired'),
     'C08': dict(
         text='Proof of the per-thread protocol obligations on the real TileCreator code (all paths, all inputs): the lock '
              'taken is the one of the meta tile\'s main tile (main_tile idempotence lemma), the upstream is queried only '
@@ -300,7 +303,8 @@ MANIFEST_META = {
              'upstream request per invocation, results stored before the lock is released. The interleaving conclusion '
              '(one fetch per meta tile across threads) is a pen-and-paper lemma conditional on lock exclusivity (C07).',
         note='no interleavings are explored (exclusivity of FileLock is assumed, C07 not applicable); opaque-callee '
-             'assumption; _create_bulk_meta_tile is under contract, lock file naming under C09'),
+             'assumption; _create_bulk_meta_tile is under contract, lock file naming under C09; S41: the re-check under the lock was blind for backends that do not '
+             're-read a loaded tile and crashed after our own S21 repair - corrected (fresh Tile for the re-check, metadata reset where the new source is set)'),
     'C13': dict(
         text='Proof on the real TileManager code: is_cached is the backend answer restricted by the threshold (stale at '
              'or before the threshold, fresh after it -- outside known finding S10), is_stale <=> exists and not fresh, '
@@ -322,5 +326,7 @@ MANIFEST_META = {
              'choice (unbounded loop invariant), _calc_grids sizes. Floats are modelled as reals.',
         note='floats as exact reals (IEEE rounding not covered; round(x,12) as a +-5e-13 perturbation); pyvc encoding '
              'trusted; TileGrid.__init__ establishing grid_wf (other than grid sizes) and strictly decreasing '
-             'resolutions are assumed; closest_level proved for grids without threshold_res; known finding S11'),
+             'resolutions are assumed; closest_level proved for grids without threshold_res; known finding S11; '
+             'S47 (fixed 1/10-pixel inset: GridError / dropped tile for sub-pixel rectangles; the contract had allowed the error) and S48 (bbox of the '
+             'meta tile block on origin=ul grids) found by the second hunt and repaired'),
 }
